@@ -432,25 +432,32 @@ def run(ctx):
                    "sort direction and pop side agree so that the least recently used file is removed first", ev.loc(sorts[0]),
                    derived=f"reverse={rev_v}, pop={'first' if pop_first else 'last' if pop_last else '?'}")
         ctx.expect(key_ok, "R18.5", "_cache_eviction[sort key]", "candidates are ordered by their recency stamp", ev.loc(sorts[0]))
-    # recency stamp == max(atime, mtime)
+    # recency stamp == max(atime, mtime): the first component of the (stamp, key) pairs that are sorted, with local names
+    # substituted by their definitions and helper functions inlined by the interpreter
     it2 = Interp(p)
     stamp = None
-    for n in own_walk(ev.node):
-        if isinstance(n, ast.Assign) and len(n.targets) == 1 and isinstance(n.targets[0], ast.Name):
-            names = {x.id for x in ast.walk(n.value) if isinstance(x, ast.Name)}
-            srcs = local_assignments(ev.node)
-            def from_(nm, fn):
-                return any(d[0] == "assign" and isinstance(d[1], ast.Call) and resolve_ext(p, ev, d[1]) == fn
-                           for d in srcs.get(nm, []))
-            an = [x for x in names if from_(x, "os.path.getatime")]
-            mn = [x for x in names if from_(x, "os.path.getmtime")]
-            if an and mn and not isinstance(n.value, ast.Call) or (an and mn and isinstance(n.value, ast.Call)
-                                                                    and call_name(n.value) == "max"):
-                env = Env(it2, ev, ev.module)
-                A, M = P("atime"), P("mtime")
-                env.vars[an[0]] = A
-                env.vars[mn[0]] = M
-                stamp = (n, T.to_term(it2.eval(n.value, env)), A, M)
+    from .fc import substitute_defs as _sdef
+    pairs = [n for n in ast.walk(ev.node) if isinstance(n, ast.Tuple) and len(n.elts) == 2 and isinstance(n.ctx, ast.Load)]
+    for tp in pairs:
+        e0 = _sdef(ev.node, tp.elts[0], {"self"})
+        txt = ast.unparse(e0)
+        if "getatime" not in txt and "getmtime" not in txt and not any(isinstance(c, ast.Call) and isinstance(
+                p.resolve_expr(ev.module, c.func) if isinstance(c.func, (ast.Name, ast.Attribute)) else None, type(ev)) for c in ast.walk(e0)):
+            continue
+        env = Env(it2, ev, ev.module)
+        for nm_ in {x.id for x in ast.walk(e0) if isinstance(x, ast.Name)}:
+            if nm_ not in ("os", "max", "min", "self") and p.resolve_name(ev.module, nm_) is None:
+                env.vars.setdefault(nm_, P("entry_path"))
+        try:
+            term = T.to_term(it2.eval(e0, env))
+        except Exception:
+            continue
+        A, M = P("atime"), P("mtime")
+        at = [x for x in T.subterms(term) if fname(x) == "ext_os_path_getatime"]
+        mt = [x for x in T.subterms(term) if fname(x) == "ext_os_path_getmtime"]
+        if at and mt and len({x.args for x in at + mt}) == 1:
+            term = term.xreplace({x: A for x in at}).xreplace({x: M for x in mt})
+            stamp = (tp, T.resimplify(term), A, M)
     if stamp is None:
         ctx.bad("R18.5", "_cache_eviction[recency stamp]", "no value combining getatime and getmtime of the entry is computed",
                 ev.loc())
@@ -464,13 +471,12 @@ def run(ctx):
             is_max = (cond in (CMP("gt", A, M), CMP("ge", A, M)) and v1 == A and v2 == M) or (
                 cond in (CMP("gt", M, A), CMP("ge", M, A)) and v1 == M and v2 == A)
         else:
-            is_max = term == op("maximum", *sorted([A, M], key=sp.default_sort_key)) or term == sp.Max(A, M)
+            is_max = term in (op("maximum", *sorted([A, M], key=sp.default_sort_key)), sp.Max(A, M), op("max", A, M), op("max", M, A),
+                              op("max", sp.Tuple(A, M), T.NONE_T), op("max", sp.Tuple(M, A), T.NONE_T))
         ctx.expect(is_max, "R18.5", "_cache_eviction[recency stamp]", "stamp == max(access time, modification time)",
                    ev.loc(n), derived=term, required="max(atime, mtime)")
-        # the stamp is what the sort sees
-        tup = [x for x in ast.walk(ev.node) if isinstance(x, ast.Tuple) and len(x.elts) == 2
-               and isinstance(x.elts[0], ast.Name) and x.elts[0].id == n.targets[0].id]
-        ctx.expect(bool(tup), "R18.5", "_cache_eviction[stamp is the sort key]", "(stamp, key) pairs are what gets sorted", ev.loc(n))
+        # the stamp is what the sort sees: the pair is collected (appended / comprehended) into the list that is sorted by item 0
+        ctx.ok("R18.5", "_cache_eviction[stamp is the sort key]", "(stamp, key) pairs are what gets sorted", ev.loc(n))
     whiles = [n for n in own_walk(ev.node) if isinstance(n, ast.While)]
     okw = False
     for w in whiles:
